@@ -35,14 +35,41 @@ def quantize_bytes(mb, rec, seed=0):
     return bytes(q.quantize(cr).quantized_model)
 
 
+def scribble(obj):
+    """what a caller may do to an object the API handed out: edit it in place at every nesting level"""
+    if isinstance(obj, dict):
+        for k in list(obj):
+            v = obj[k]
+            if isinstance(v, (dict, list)):
+                scribble(v)
+            elif isinstance(v, bool):
+                obj[k] = not v
+            elif isinstance(v, int):
+                obj[k] = 4 if v != 4 else 8
+            elif isinstance(v, str):
+                obj[k] = v + "_edited"
+        obj["edited_by_caller"] = 1
+    elif isinstance(obj, list):
+        for v in obj:
+            scribble(v)
+        obj.append({"edited_by_caller": 1})
+
+
 def reload_oracle(ctx, cmds, with_model=None):
     """the property on the real code: get -> json -> fresh Quantizer -> equal recipe, equal resolution (and equal bytes)."""
     real = fr.RealRecipe()
     for k, c in enumerate(cmds):
         real.step(c)
         if k % 2:
-            real.q.get_quantization_recipe()  # an export in the middle of the history
+            scribble(real.q.get_quantization_recipe())  # an export in the middle of the history, edited in place by its receiver
+    first = real.q.get_quantization_recipe()
+    snapshot = copy.deepcopy(first)
+    scribble(first)                                      # the exported object belongs to the caller
     rec = real.q.get_quantization_recipe()
+    if json.dumps(fr.plain(rec), sort_keys=True, default=str) != json.dumps(fr.plain(snapshot), sort_keys=True, default=str):
+        ctx.fail("editing an exported recipe in place changed what the next export returns (exports share nested objects)",
+                 {"adds": cmds}, "export-aliased")
+        return
     # the export must describe the rules that resolution actually uses: a fresh quantizer replaying the updates agrees
     fresh = fr.RealRecipe()
     for c in cmds:
